@@ -51,7 +51,40 @@ PairOK(c) == IF c.a.o = "raise" THEN c.b.o = "raise" /\ c.b.cls = c.a.cls
 \* C06: the same query on a rule set and on the set with one reference inlined
 SameOK(c) == c.a.o = c.b.o /\ c.a.v = c.b.v /\ c.a.cls = c.b.cls
 
+\* C16: what the remote server was sent.  reqs: one record per request seen by
+\* the transport stub: url (text), rule (policy name, "" = null), target and
+\* creds (structural JSON encodings decoded from the payload), enc (content
+\* type actually used).  jtarget/jcreds: the same encoding of the values the
+\* caller passed; opaque objects at the top level of the target are blanked.
+EmptyDict == [t |-> "d", e |-> <<>>]
+BlankTop(tv) == [tv EXCEPT !.e = [i \in 1..Len(tv.e) |-> IF tv.e[i][2].t = "o" THEN <<tv.e[i][1], EmptyDict>> ELSE tv.e[i]]]
+ReqsOK(c, exp) ==
+  LET sent == SelectSeq(exp.log, LAMBDA en : en[1] = "http") IN
+  /\ (c.tlsfault = 0 => Len(c.reqs) = Len(sent))
+  /\ (c.tlsfault = 1 => Len(c.reqs) = 0)
+  /\ \A i \in 1..Len(c.reqs) :
+        /\ c.reqs[i].url = sent[i][3]
+        /\ c.reqs[i].scheme = sent[i][2]
+        /\ c.reqs[i].rule = sent[i][4]
+        /\ c.reqs[i].enc = c.enc
+        /\ c.reqs[i].creds = c.jcreds
+        /\ (c.cmp_target = 1 => c.reqs[i].target = BlankTop(c.jtarget))
+\* (a target holding an opaque object below its top level cannot be
+\* serialised; the statement does not say what happens then: the request may
+\* fail before anything is sent, but the caller's target stays untouched)
+HttpOK(c) == \E loose \in BOOLEAN :
+   LET exp == Enforce(c.call, c.st, EnvOf(c, loose)) IN
+   IF c.nested_opaque = 1 /\ c.obs.o = "raise" /\ Len(SelectSeq(exp.log, LAMBDA en : en[1] = "http")) > 0
+   THEN c.obs.target_unchanged = 1 /\ Len(c.reqs) = 0
+   ELSE
+   /\ c.obs.o = exp.o
+   /\ (exp.o = "ret" => (c.obs.v = 1) = exp.v)
+   /\ (exp.o = "raise" => c.obs.cls = exp.cls)
+   /\ c.obs.target_unchanged = 1
+   /\ ReqsOK(c, exp)
+
 Verdict(c) == CASE c.kind = "enforce" -> EnforceOK(c)
+                [] c.kind = "http" -> HttpOK(c)
                 [] c.kind = "pair" -> PairOK(c)
                 [] c.kind = "same" -> SameOK(c)
 
